@@ -1,4 +1,5 @@
 import DepsDev.Proofs.C10Tie
+import DepsDev.Proofs.C10Gem
 import DepsDev.Props.SemverTies
 
 /-!
@@ -27,8 +28,10 @@ What is here:
   all inputs; NuGet's floating labels `1.0.0-a*` included), hence `canon_roundtrip` and
   `canon_injective_up_to_compare`: the property itself for Default, Cargo, Go, NPM, Composer
   and NuGet on every non-wildcard version `Parse` accepts (`c10_generic`);
-* Maven, PyPI, RubyGems: the statements only (`CanonRoundTripFull`), covered by the
-  differential correspondence and the round-trip oracle, not by a theorem.
+* RubyGems, release-only versions (the property's own restriction): `gem_release` — the
+  property for everything `Parse` accepts without the prerelease flag (`GemRelease`);
+* Maven, PyPI: the statements only (`CanonRoundTripFull`), covered by the differential
+  correspondence and the round-trip oracle, not by a theorem.
 -/
 namespace DepsDev.Props.C10
 
@@ -260,6 +263,31 @@ example : ∃ v, parse .npm [118, 49, 46, 50, 45, 66, 101, 116, 97, 45, 49, 43, 
     NotWildcard v = true := by
   refine ⟨{ sys := .npm, userNumCount := 2, isPrerelease := true, num := [1, 2], pre := [[66, 101, 116, 97, 45, 49]], build := [43, 120, 46, 121] }, ?_, ?_⟩ <;>
     decide +kernel
+
+/-! ## RubyGems, release-only -/
+
+/-- **C10 for RubyGems release-only versions** (all four clauses): every version `Parse` accepts
+without the prerelease flag round-trips through its canonical string, and two such versions with
+the same canonical string compare equal. -/
+theorem gem_release :
+    (∀ (b : Bytes) (v : Version) (sb : Bool), parse .rubygems b = .ok v → GemRelease v = true →
+      RoundTrips .rubygems v sb) ∧
+    (∀ (b1 b2 : Bytes) (v w : Version), parse .rubygems b1 = .ok v → parse .rubygems b2 = .ok w →
+      GemRelease v = true → GemRelease w = true → canon v true = canon w true → vcompare v w = .ok 0) := by
+  constructor
+  · intro b v sb hp hg
+    have hrel : v.isPrerelease = false := by simpa [GemRelease] using hg
+    obtain ⟨h1, h2, h3⟩ := gem_release_roundtrip v sb (parse_gem_release b v hp hrel)
+    exact ⟨_, h1, h2, h3⟩
+  · intro b1 b2 v w hp1 hp2 hg1 hg2 h
+    have hr1 : v.isPrerelease = false := by simpa [GemRelease] using hg1
+    have hr2 : w.isPrerelease = false := by simpa [GemRelease] using hg2
+    exact gem_release_injective v w (parse_gem_release b1 v hp1 hr1) (parse_gem_release b2 w hp2 hr2) h
+
+/-- Non-vacuity: RubyGems `01.2` (leading zero, two numbers) is an accepted release; its canonical
+string is `1.2.0`. -/
+example : ∃ v, parse .rubygems [48, 49, 46, 50] = .ok v ∧ GemRelease v = true := by
+  refine ⟨{ sys := .rubygems, userNumCount := 2, num := [1, 2, 0], ext := .gem [] }, ?_, ?_⟩ <;> decide +kernel
 
 /-- The Cargo version `1.2-Beta-1+x.y` as `Parse` leaves it (two numbers). -/
 def cargoV : Version :=
